@@ -79,6 +79,14 @@ def profile_crash(rng: random.Random, modes: list[str] = LB, requeue: bool = Fal
     return cfg
 
 
+def profile_requeue(rng: random.Random) -> S.SimCfg:
+    """crashes whose test the plugin re-queues (downgrading the crash report to "rerun"), some of them under --maxfail: a
+    crash report that is not a failure any more must not count as one"""
+    cfg = profile_crash(rng, ["load", "worksteal"], True)
+    cfg.maxfail = rng.choice([0, 0, 1, 1, 2])
+    return cfg
+
+
 def profile_each(rng: random.Random) -> S.SimCfg:
     cfg = base_cfg(rng, ["each"])
     if rng.random() < 0.4:
@@ -112,6 +120,22 @@ def profile_budget(rng: random.Random) -> S.SimCfg:
             cfg.behav[i] = [S.Behav("crash")]
     if rng.random() < 0.3:
         cfg.p_crash, cfg.max_crashes = 0.02, rng.randrange(1, 6)
+    return cfg
+
+
+def profile_stealshut(rng: random.Random) -> S.SimCfg:
+    """worksteal: the restart budget is used up by a death at a random moment -- also while a steal request is unanswered --,
+    so that the shutdown begins with a withdrawal in flight"""
+    cfg = base_cfg(rng, ["worksteal"])
+    cfg.mode = "worksteal"
+    cfg.via_n = True
+    cfg.numnodes = rng.choice([2, 3, 3, 4])
+    cfg.ids = gen_ids(rng, "worksteal", rng.choice([13, 17, 24, 30]))
+    cfg.behav = {i: [S.Behav("pass", slow=True)] for i in range(len(cfg.ids)) if rng.random() < 0.3}
+    cfg.restart = rng.choice([0, 0, 1])
+    cfg.p_crash = rng.choice([0.01, 0.02, 0.04])
+    cfg.max_crashes = cfg.restart + 1 + (1 if rng.random() < 0.3 else 0)
+    cfg.oserror_window = rng.random() < 0.3
     return cfg
 
 
@@ -226,9 +250,9 @@ def profile_collecterr(rng: random.Random) -> S.SimCfg:
 
 
 PROFILES = {
-    "plain": profile_plain, "crash": profile_crash, "requeue": lambda r: profile_crash(r, ["load", "worksteal"], True),
+    "plain": profile_plain, "crash": profile_crash, "requeue": lambda r: profile_requeue(r),
     "each": profile_each, "budget": profile_budget, "stop": profile_stop, "mismatch": profile_mismatch,
-    "lifecycle": profile_lifecycle, "collecterr": profile_collecterr, "earlystop": profile_earlystop,
+    "lifecycle": profile_lifecycle, "collecterr": profile_collecterr, "earlystop": profile_earlystop, "stealshut": profile_stealshut,
 }
 
 
@@ -285,6 +309,11 @@ def check_run(s: S.Sim, profile: str, res: CompResult, ops: list[str]) -> None:
     n = f.n
     # ---- C16: the command streams -- facts about what was put on the wire hold however the run ended (stand-off, internal error)
     check_wire(s, f, fire)
+    if s.steal_breaks:
+        at, wid, idx, left = s.steal_breaks[0]
+        fire(["C07"], "withdrawn-tests-still-booked", f"controller event #{at}: worker {wid} answered a steal request with {idx}; after the iteration that handled "
+             f"the answer {left} are still in its book (and were not handed to it again): the tests are in nobody's queue, the book is wrong",
+             {"breaks": s.steal_breaks[:5]})
     # ---- C02 / C17: the run ends, and not with an internal error
     if kind == "standoff":
         props = ["C02"] + (["C17"] if profile == "lifecycle" else []) + (["C15"] if cfg.requeue else [])
@@ -294,6 +323,14 @@ def check_run(s: S.Sim, profile: str, res: CompResult, ops: list[str]) -> None:
         if odd:
             fire(["C09", "C02"], f"standoff-with-disagreeing-replacement:{cfg.mode}",
                  f"stand-off: replacement {odd} collected differently and is never given tests nor shut down; the remaining tests wait forever: {waiting}")
+            return
+        told = {d[0] for d in s.nodedown}
+        unreported = [w.id for w in s.workers if w.death_hold is not None and w.end_seen and w.id not in told]
+        if unreported:
+            # the receiver thread has seen the end of the channel of a dead worker, yet the controller was never told: the death is
+            # neither charged to the budget nor followed by a replacement, and the run waits for that worker for ever
+            fire(["C10", "C17", "C02"], "death-not-reported", f"stand-off: worker(s) {unreported} died, the end of their channel was processed, but no "
+                 f"'errordown' reached the controller (channel ended with {[type(s.by_id[x].gw.channel_error()).__name__ if hasattr(s.by_id[x].gw, 'channel_error') else '?' for x in unreported]})")
             return
         fire(props, f"standoff:{cfg.mode}:{'crash' if crashy else 'nocrash'}",
              f"stand-off: the controller waits for events, live workers wait: {waiting}", {"waiting": waiting})
@@ -481,6 +518,15 @@ def check_reports(s: S.Sim, f: Facts, fire: Any) -> None:
 
 def check_stop(s: S.Sim, f: Facts, fire: Any, kind: str, text: str) -> None:
     cfg = s.cfg
+    if kind == "interrupted" and text.startswith("stopping after") and cfg.maxfail:
+        # --maxfail counts failed reports *of tests*; a crash report is published through the crash hook (which may have turned it
+        # into a non-failure) and is not one of them
+        failed = [p for p in s.published if p[0] == "test" and p[3] != "???" and p[4] == "failed"]
+        if len(failed) < cfg.maxfail:
+            props = ["C11"] + (["C15"] if cfg.requeue and s.requeued else [])
+            fire(props, "maxfail-stop-without-failures", f"run stopped with {text!r} (--maxfail={cfg.maxfail}) after {len(failed)} failed test report(s); "
+                 f"crash reports published: {[(p[2], p[4]) for p in s.published if p[0] == 'test' and p[3] == '???'][:3]}"
+                 + (f"; the re-queued {s.requeued[:2]} were never run again" if s.requeued else ""))
     if s.stop_wire_at is not None:
         later = [(wid, name, kw) for wid, name, kw in s.wirelog[s.stop_wire_at:] if name != "shutdown"]
         if later:
